@@ -25,6 +25,8 @@ structure TReady (hi s : Nat) (p : Nat × Nat) (P : Pool) : Prop where
   atS : (get P.pr s).skip = false ∧ (get P.pr s).nfs = [] ∧ (get P.pr s).ready = (if isWindowStart s then [p] else [])
   above : ∀ t, s < t → (get P.pr t).skip = false ∧ (get P.pr t).nfs = [] ∧ (get P.pr t).ready = []
   prParent : isWindowStart s = false → p.1 + 1 = s ∧ (get P.pr p.1).nfs = [p.2] ∧ (get P.pr p.1).skip = false
+  /-- the highest finalized slot of the finality tracker is the parent's -/
+  highEq : P.fin.highest = p.1
 
 structure TMid (hi s h : Nat) (p : Nat × Nat) (nf nt : Bool) (P : Pool) : Prop where
   plt : p.1 < s
@@ -220,7 +222,8 @@ theorem cert_fin {e : Epoch} {hi s h : Nat} {p : Nat × Nat} {a : SlotState} {Q 
   have hgx : ∀ x, c.slot ≤ x → get (ParentReady.prune pr1 t'.first) x = get Q.pr x := fun x hx => by
     rw [ParentReady.get_prune_ge _ (Nat.le_trans hfl hx), g x]
   refine ⟨ps.of_views v2 t'.first hfl v5 v6, ?_, by simpa [prEvents] using v1⟩
-  refine ⟨Nat.lt_succ_self _, by rw [v3]; exact hfl, by rw [v3, fd.highest]; exact Nat.le_refl _, ?_, ?_, ?_, ?_, ?_, ?_, ?_, ?_, ?_⟩
+  refine ⟨Nat.lt_succ_self _, by rw [v3]; exact hfl, by rw [v3, fd.highest]; exact Nat.le_refl _, ?_, ?_, ?_, ?_, ?_, ?_, ?_, ?_, ?_,
+    by rw [v3]; exact fd.highest⟩
   · rw [v3, fd.highest]
     have := tm.bound; have := tm.high_le
     show hi < c.slot + _
@@ -266,7 +269,7 @@ theorem cert_final_done {e : Epoch} {hi s h : Nat} {a : SlotState} {Q : Pool} (p
     ParentReady.get_prune_ge _ (Nat.le_trans hfl hx)
   refine ⟨ps.of_views v2 Q.fin.first hfl v5 v6, ?_, by rw [v3]; exact hst, by simpa [prEvents] using v1⟩
   refine ⟨tr.plt, by rw [v3]; exact tr.first_le, by rw [v3]; exact tr.high_le, by rw [v3]; exact tr.bound,
-    by rw [v3]; exact tr.statusNone, by rw [v3]; exact tr.parentsNone, ?_, ?_, ?_, ?_, ?_, ?_⟩
+    by rw [v3]; exact tr.statusNone, by rw [v3]; exact tr.parentsNone, ?_, ?_, ?_, ?_, ?_, ?_, by rw [v3]; exact tr.highEq⟩
   · left; rw [v3]; exact hst
   · rw [v4]; exact hfl
   · intro t h1 h2; simp only [] at h1; omega
@@ -479,8 +482,8 @@ theorem TReady.of_trk {hi s : Nat} {p : Nat × Nat} {Q Q' : Pool} (t : TReady hi
     TReady hi s p Q' := by
   have e1 : Q'.fin = Q.fin := congrArg Trk.fin e
   have e2 : Q'.pr = Q.pr := congrArg Trk.pr e
-  obtain ⟨a1, a2, a3, a4, a5, a6, a7, a8, a9, a10, a11, a12⟩ := t
-  refine ⟨a1, ?_, ?_, ?_, ?_, ?_, ?_, ?_, ?_, ?_, ?_, ?_⟩ <;> (first | rw [e1, e2] | rw [e1] | rw [e2]) <;> assumption
+  obtain ⟨a1, a2, a3, a4, a5, a6, a7, a8, a9, a10, a11, a12, a13⟩ := t
+  refine ⟨a1, ?_, ?_, ?_, ?_, ?_, ?_, ?_, ?_, ?_, ?_, ?_, ?_⟩ <;> (first | rw [e1, e2] | rw [e1] | rw [e2]) <;> assumption
 
 theorem PSlot.putSlot {e : Epoch} {s : Nat} {a a' : SlotState} {Q : Pool} (ps : PSlot e s a Q) (hs : a'.slot = s) :
     PSlot e s a' (Q.putSlot a') := by
